@@ -4,6 +4,8 @@ Case lines
   `<id> c10|b10 <period> <input-hex>` LZ10CompressionFormat::compress   → `ok <hex> rt=ok`
   `<id> c13|b13 <period> <input-hex>` LZ13CompressionFormat::compress   → `ok <hex> rt=ok alloc=ok`
   (`c*`: judged against the C08/C09 clauses; `b*`: against the C10 size bounds)
+  `<id> t10|t13 <kind> <n> s<seed>`   as `c*` on a generated input at the top of the domain (`genTop`): 2^24-1, 2^24-2,
+      and 2^24, 2^24+1 where only "Ok or Err, no panic" is asked
   `<id> g10|g13 <kind> <r> <m> s<seed> <n>`  as `b*` on a generated periodic input: pattern `genPattern kind r m seed`
       (same splitmix64 as the harness) repeated to `n` bytes; claimed period = pattern length
   `<id> d10|d13|f10|f13 <stream-hex>` LZ10/LZ13/CompressionFormat::decompress → `ok <hex> x=ok` | `err Invalid x=ok` | `panic`
@@ -43,6 +45,21 @@ def genPattern (kind r m : Nat) (seed : UInt64) : BA :=
   let tail := pat.extract (r - m) r
   let pat := pat ++ head
   if kind == 2 then pat ++ tail else pat
+
+/-- Inputs at the top of the domain (see `gen_top` in the harness). -/
+def genTop (kind n : Nat) (seed : UInt64) : BA :=
+  if kind == 0 then
+    let a := seed.toUInt8
+    let v := Array.replicate n (a + 1)
+    if n > 0 then (v.set! 0 a).set! (n - 1) (a + 2) else v
+  else
+    let q := 3 + (seed % 38).toNat
+    Id.run do
+      let pat := smBytes seed q
+      let mut out : BA := Array.emptyWithCapacity n
+      for i in [0:n] do
+        out := out.push (pat.getD (i % q) 0)
+      return out
 
 def periodicInput (pat : BA) (n : Nat) : BA := Id.run do
   let mut out : BA := Array.mkEmpty n
@@ -92,11 +109,13 @@ def oracleCompress (is13 : Bool) (x : BA) (impl : List String) : String :=
           if ext != is13 then "FAIL wrong stream type byte"
           else if n' != n then s!"FAIL header length {n'} != input length {n}"
           else if !(Spec.Lz.validB ext toks) then "FAIL invalid token (length/displacement range or reach)"
-          else if !(baEq (Spec.Lz.expand toks) x) then "FAIL independent decoder: expansion differs from the input"
+          else if !(baEq (Spec.Lz.expandFrom (Array.emptyWithCapacity n') toks) /- = expand toks -/ x) then "FAIL independent decoder: expansion differs from the input"
           else if !(rest.contains "rt=ok") then "FAIL library decompress(compress(x)) != x"
           else s!"ok tokens={toks.length}"
   | _ :: "panic" :: _ => "FAIL panic"
-  | _ :: "err" :: _ => if is13 && x.size ≥ 2 ^ 24 then "ok skip" else "FAIL compress returned an error"
+  | _ :: "err" :: _ =>
+    -- the property is silent for inputs of 16 MiB or more: Ok or Err, no panic
+    if x.size ≥ 2 ^ 24 then "ok skip input of 16 MiB or more" else "FAIL compress returned an error"
   | _ => "FAIL unreadable implementation line"
 
 /-- C10 oracle: the two inequalities on the implementation's output. -/
@@ -211,6 +230,12 @@ def family : Family where
     | [_, "b13", p, x] =>
       let x := (hexOrBad x).toArray
       ((), modelCompress true x, oracleBounds true p.toNat! x i)
+    | [_, "t10", kind, n, seed] =>
+      let x := genTop kind.toNat! n.toNat! (UInt64.ofNat (seed.drop 1).toString.toNat!)
+      ((), modelCompress false x, oracleCompress false x i)
+    | [_, "t13", kind, n, seed] =>
+      let x := genTop kind.toNat! n.toNat! (UInt64.ofNat (seed.drop 1).toString.toNat!)
+      ((), modelCompress true x, oracleCompress true x i)
     | [_, "g10", kind, r, m, seed, n] =>
       let pat := genPattern kind.toNat! r.toNat! m.toNat! (UInt64.ofNat (seed.drop 1).toString.toNat!)
       let x := periodicInput pat n.toNat!
